@@ -173,9 +173,19 @@ class Interp(MiniEval):
                 return Sym(f'{a[1]}.{a[2]}')
         try:
             v = self.inv.folder.lookup(mod.name, name)
-            if type(v).__name__ == 'ClassRef' and hasattr(v, 'qual'):
-                return PkgClass(v.qual)             # a module-level alias of a package class
-            return v
+
+            def norm(x):
+                # package classes inside folded constants (an alias, a table of classes) become class values
+                if type(x).__name__ == 'ClassRef' and hasattr(x, 'qual'):
+                    return PkgClass(x.qual)
+                if isinstance(x, tuple):
+                    return tuple(norm(y) for y in x)
+                if isinstance(x, list):
+                    return [norm(y) for y in x]
+                if isinstance(x, dict):
+                    return {norm(k): norm(y) for k, y in x.items()}
+                return x
+            return norm(v)
         except Exception:  # noqa: BLE001
             pass
         node = self.inv.folder.env_nodes[mod.name].get(name)
@@ -197,6 +207,29 @@ class Interp(MiniEval):
             if ck not in self.shared:
                 sub = Interp(self.ctx, mod.name, None, {}, self.stubs, self.depth + 1, self.shared)
                 self.shared[ck] = sub.ev(node)
+                # module-level statements after the definition that complete the value in place (TABLE[k] = v, TABLE.update(...))
+                after = False
+                for st in mod.tree.body:
+                    if not after:
+                        after = any(x is node for x in ast.walk(st))
+                        continue
+
+                    def mutates(x):
+                        root = x
+                        while isinstance(root, (ast.Subscript, ast.Attribute)):
+                            root = root.value
+                        return root is not x and isinstance(root, ast.Name) and root.id == name
+                    hit = False
+                    for x in ast.walk(st) if not isinstance(st, (ast.FunctionDef, ast.ClassDef)) else []:
+                        if isinstance(x, (ast.Assign, ast.AugAssign, ast.Delete)):
+                            ts = x.targets if isinstance(x, (ast.Assign, ast.Delete)) else [x.target]
+                            hit = hit or any(mutates(t) for t in ts)
+                        elif isinstance(x, ast.Expr) and isinstance(x.value, ast.Call) and isinstance(x.value.func, ast.Attribute) \
+                                and isinstance(x.value.func.value, ast.Name) and x.value.func.value.id == name \
+                                and x.value.func.attr in ('update', 'append', 'extend', 'setdefault', 'pop', 'insert', 'remove', 'add', 'clear'):
+                            hit = True
+                    if hit:
+                        sub.stmt(st)
             return self.shared[ck]
         raise KeyError(name)
 
@@ -329,6 +362,19 @@ class Interp(MiniEval):
                 v = getattr(_re, attr, None)
                 if isinstance(v, (int, _re.RegexFlag)):
                     return int(v)
+                if attr == 'escape':
+                    # re.escape as a value (kept in a table of quoting functions): pure on strings
+                    def escape_(x):
+                        if not isinstance(x, str):
+                            raise Unsupported('re.escape of an abstract value')
+                        return _re.escape(x)
+                    return escape_
+                if attr == 'compile':
+                    def compile_(pattern, flags=0):
+                        if not isinstance(pattern, str):
+                            raise Unsupported('re.compile of an abstract value')
+                        return Obj(_name=f're:{pattern[:20]}', pattern=pattern, flags=flags, __isa__=('re.Pattern',))
+                    return compile_
             return Sym(key)
         if isinstance(base, Obj) and base.has('__super__'):
             selfobj = base.get('__self__')
@@ -360,7 +406,9 @@ class Interp(MiniEval):
                         raise Unsupported(f'regex outside the matcher: {e}')
                 eng = self.shared[key]
 
-                def apply_(*a, _m=getattr(eng, attr), **kw):
+                def apply_(*a, _m=getattr(eng, attr), _attr=attr, **kw):
+                    if _attr == 'sub' and a and isinstance(a[0], (PkgFunc, Closure, Partial)):
+                        a = (self.as_callable(a[0]),) + tuple(a[1:])      # the replacement callback is interpreted, too
                     try:
                         return _m(*a, **kw)
                     except rematch.Unsupported as e:
@@ -368,20 +416,30 @@ class Interp(MiniEval):
                 return apply_
             cq = object.__getattribute__(base, '_cls')
             if cq:
-                mq = self.src.find_method(cq, attr)
-                if mq:
-                    m, fn = self.src.func(mq)
-                    return PkgFunc(m, fn, mq.split('.')[1], bound=base)
-                # class-level attribute
+                # methods and class-level attributes, class by class along the MRO (a function kept in a class attribute is a
+                # method: it is bound to the instance it is read from)
                 for c in self.src.mro(cq):
                     mn, _, cn = c.partition('.')
+                    if mn not in self.src.mods or cn not in self.src.mods[mn].classes:
+                        continue
+                    if f'{cn}.{attr}' in self.src.mods[mn].functions:
+                        return PkgFunc(self.src.mods[mn], self.src.mods[mn].functions[f'{cn}.{attr}'], cn, bound=base)
                     cnode = self.src.mods[mn].classes[cn]
                     for st in cnode.body:
+                        val = None
                         if isinstance(st, ast.Assign) and any(isinstance(t, ast.Name) and t.id == attr for t in st.targets):
-                            return Interp(self.ctx, mn, cn, {}, self.stubs, self.depth + 1, self.shared).ev(st.value)
-                        if isinstance(st, ast.AnnAssign) and isinstance(st.target, ast.Name) and st.target.id == attr \
+                            val = st.value
+                        elif isinstance(st, ast.AnnAssign) and isinstance(st.target, ast.Name) and st.target.id == attr \
                                 and st.value is not None:
-                            return Interp(self.ctx, mn, cn, {}, self.stubs, self.depth + 1, self.shared).ev(st.value)
+                            val = st.value
+                        if val is not None:
+                            ck = ('classattr', c, attr)
+                            if ck not in self.shared:
+                                self.shared[ck] = Interp(self.ctx, mn, cn, {}, self.stubs, self.depth + 1, self.shared).ev(val)
+                            v = self.shared[ck]
+                            if isinstance(v, (Closure, PkgFunc)) and not (isinstance(v, PkgFunc) and v.bound is not None):
+                                return Partial(v, [base], {})
+                            return v
             raise Unsupported(f'attribute {attr} of {base!r}')
         if isinstance(base, PkgClass):
             mq = self.src.find_method(base.qual, attr)
